@@ -773,8 +773,18 @@ def check_fold(R, drv, tier, want=("spec", "panic")):
     i0, i1 = bv("a0_int"), bv("a1_int")
     b0, b1 = z3.Bool("a0_bool"), z3.Bool("a1_bool")
     same_variant = z3.And(islit("a0"), islit("a1"), bv("a0_lit") == bv("a1_lit"))
+    f0, f1 = z3.Real("a0_float"), z3.Real("a1_float")
     lits_equal = z3.If(bv("a0_lit") == LV.index("Null"), z3.BoolVal(True), z3.If(bv("a0_lit") == LV.index("Integer"), i0 == i1,
-                                                                                  z3.If(bv("a0_lit") == LV.index("Boolean"), b0 == b1, v["str_eq"])))
+                                                                                  z3.If(bv("a0_lit") == LV.index("Boolean"), b0 == b1,
+                                                                                        z3.If(bv("a0_lit") == LV.index("Float"), f0 == f1, v["str_eq"]))))
+    # an integer literal against a float literal: the comparison is numeric (what the database would compute); the compiler
+    # may leave it unfolded, but if it folds, the value must be the numeric one
+    mixed_num = z3.And(islit("a0"), islit("a1"), z3.Or(z3.And(bv("a0_lit") == LV.index("Integer"), bv("a1_lit") == LV.index("Float")),
+                                                        z3.And(bv("a0_lit") == LV.index("Float"), bv("a1_lit") == LV.index("Integer"))))
+    num0 = z3.If(bv("a0_lit") == LV.index("Integer"), z3.ToReal(z3.BV2Int(i0, True)), f0)
+    num1 = z3.If(bv("a1_lit") == LV.index("Integer"), z3.ToReal(z3.BV2Int(i1, True)), f1)
+    # replayable float literals: quarters of moderate size
+    float_dom = [z3.IsInt(f0 * 4), z3.IsInt(f1 * 4), f0 >= -1000, f0 <= 1000, f1 >= -1000, f1 <= 1000]
     N = lambda s: name == z3.StringVal(s)
     rets = [e for e in exits if e.kind == "return"]
     panics = [e for e in exits if e.kind == "panic"]
@@ -814,10 +824,12 @@ def check_fold(R, drv, tier, want=("spec", "panic")):
                z3.If(z3.And(N("std.neg"), islit("a0", "Float")), res_is_lit("Float"),
                z3.If(z3.And(N("std.eq"), same_variant), res_is_lit("Boolean", lits_equal),
                z3.If(z3.And(N("std.ne"), same_variant), res_is_lit("Boolean", z3.Not(lits_equal)),
+               z3.If(z3.And(N("std.eq"), mixed_num), z3.Or(unchanged, res_is_lit("Boolean", num0 == num1)),
+               z3.If(z3.And(N("std.ne"), mixed_num), z3.Or(unchanged, res_is_lit("Boolean", num0 != num1)),
                z3.If(z3.And(N("std.and"), islit("a0", "Boolean"), islit("a1", "Boolean")), res_is_lit("Boolean", z3.And(b0, b1)),
                z3.If(z3.And(N("std.or"), islit("a0", "Boolean"), islit("a1", "Boolean")), res_is_lit("Boolean", z3.Or(b0, b1)),
-               z3.If(z3.And(N("std.coalesce"), islit("a0", "Null")), returns_arg1, unchanged))))))))
-        vd, model, dt = check(e.pc, z3.Not(spec), timeout_ms=60000)
+               z3.If(z3.And(N("std.coalesce"), islit("a0", "Null")), returns_arg1, unchanged))))))))))
+        vd, model, dt = check(list(e.pc) + float_dom, z3.Not(spec), timeout_ms=60000)
         R.q(vd, dt)
         if vd == "unknown":
             R.engine_error("K-fold: unknown")
@@ -835,6 +847,11 @@ def check_fold(R, drv, tier, want=("spec", "panic")):
                     return str(n) if n >= 0 else f"({n})"
                 if LV[d] == "Boolean":
                     return "true" if z3.is_true(model.eval(z3.Bool(f"{tag}_bool"), model_completion=True)) else "false"
+                if LV[d] == "Float":
+                    q = model.eval(z3.Real(f"{tag}_float"), model_completion=True)
+                    x = q.numerator_as_long() / q.denominator_as_long()
+                    t_ = repr(float(x))
+                    return t_ if x >= 0 else f"({t_})"
                 return '"s"'
             ops = {"std.not": "!{0}", "std.neg": "-{0}", "std.eq": "{0} == {1}", "std.ne": "{0} != {1}", "std.and": "{0} && {1}", "std.or": "{0} || {1}", "std.coalesce": "{0} ?? {1}"}
             if nm not in ops:
@@ -865,7 +882,8 @@ def check_fold(R, drv, tier, want=("spec", "panic")):
                 R.violation({"engine": "mirsym", "kernel": "K-fold", "kind": "fold", "op": nm}, f"K-fold: {etxt} is folded to a different value: compiled {r.get('sql')!r} yields {got!r}, the unfolded meaning is {want_v!r}",
                             {"prql": prog, "sql": r.get("sql"), "features": ["target:sql.sqlite"]})
             else:
-                R.engine_error(f"K-fold: model {etxt} violates the folding spec but does not reproduce natively ({r.get('sql') or r.get('errors')})")
+                # the spec names the documented foldings; a further folding whose value is right is not a violation
+                R.cov.setdefault("unobservable_models", []).append(["K-fold", etxt, str(r.get("sql") or r.get("errors"))[:160]])
     if "panic" in want:
         for e in panics:
             vd, model, dt = check(e.pc, z3.BoolVal(True))
